@@ -29,6 +29,7 @@ func init() {
 		Explain: "Decides relay selection structurally: the relay loop is reached only when relayFactor != 0 and the node knows at least relayFactor+1 members, and iterates over kRandomMembers(relayFactor, members, filter); the filter keeps a member only on edges establishing status alive, protocol >= 5 and name != local name; the selector appends only members the filter kept, whose name equals no already selected member (exit of the dedupe scan) and only while fewer than k were selected (so at most k, distinct, never self); each relayed copy goes to the selected member's own address and name.",
 		Run: runC35,
 		Mutants: []Mutant{
+			{Name: "rename-locals", Equivalent: true, Regexp: true, File: "serf/query.go", Func: "func (s *Serf) relayResponse(", Old: `\b(localName|members|relayMembers)\b`, New: "${1}Renamed"},
 			{Name: "relay-to-self", File: "serf/query.go", Func: "func (s *Serf) relayResponse(", Old: "m.Status != StatusAlive || m.ProtocolMax < 5 || m.Name == localName", New: "m.Status != StatusAlive || m.ProtocolMax < 5 || (m.Name == localName && m.Port == 0)", Expect: "R2"},
 			{Name: "relay-to-failed", File: "serf/query.go", Func: "func (s *Serf) relayResponse(", Old: "m.Status != StatusAlive || m.ProtocolMax < 5 || m.Name == localName", New: "m.Status == StatusLeft || m.ProtocolMax < 5 || m.Name == localName", Expect: "R2"},
 			{Name: "no-dedupe", File: "serf/query.go", Func: "func kRandomMembers(", Old: "\t\t\tif member.Name == kMembers[j].Name {\n\t\t\t\tcontinue OUTER\n\t\t\t}\n", New: "\t\t\tif member.Name == kMembers[j].Name && j > 0 {\n\t\t\t\tcontinue OUTER\n\t\t\t}\n", Expect: "R3"},
@@ -43,6 +44,7 @@ func init() {
 		Explain: "Decides name-conflict resolution structurally: a reply is counted only when its payload is non-empty, its type byte is the conflict-response type and it decodes; it counts as matching only when additionally address and port equal the local node's; the self-shutdown is reached exactly on the false edge of a strict-majority test in canonical form over those two counters; the responder answers with the member it holds for the queried name and stays silent about itself.",
 		Run: runC36,
 		Mutants: []Mutant{
+			{Name: "rename-locals", Equivalent: true, Regexp: true, File: "serf/serf.go", Func: "func (s *Serf) resolveNodeConflict(", Old: `\b(member|responses|matching|majority)\b`, New: "${1}Renamed"},
 			{Name: "reply-struct-reused", File: "serf/serf.go", Func: "func (s *Serf) resolveNodeConflict(", Old: "\t\tvar member Member\n", New: "", Old2: "\tvar responses, matching int\n", New2: "\tvar responses, matching int\n\tvar member Member\n", Expect: "R4"},
 			{Name: "majority-nonstrict", File: "serf/serf.go", Func: "func (s *Serf) resolveNodeConflict(", Old: "majority := (responses / 2) + 1", New: "majority := (responses + 1) / 2", Expect: "R2"},
 			{Name: "malformed-counted", File: "serf/serf.go", Func: "func (s *Serf) resolveNodeConflict(", Old: "\t\t\ts.logger.Printf(\"[ERR] serf: Failed to decode conflict query response: %v\", err)\n\t\t\tcontinue", New: "\t\t\ts.logger.Printf(\"[ERR] serf: Failed to decode conflict query response: %v\", err)\n\t\t\tresponses++\n\t\t\tcontinue", Expect: "R1"},
@@ -334,32 +336,52 @@ func runC36(c *an.Ctx) {
 		c.Floor("R4", "decode sites in resolveNodeConflict", decodeTargetsFresh(c, "R4", []*ssa.Function{rn}), 1)
 		var incR, incM []ssa.Instruction
 		var phiR, phiM *ssa.Phi
-		// the counters are found by role: the reply counter is the integer loop variable that is
-		// halved for the majority, the matching counter is the one compared against that majority
+		// the counters are found by role: the two integer loop variables that are incremented by one;
+		// the reply counter is the one whose increment comes first in an iteration (it dominates the other's)
+		type ctr struct {
+			phi  *ssa.Phi
+			incs []ssa.Instruction
+		}
+		var ctrs []ctr
 		an.Instrs(rn, func(in ssa.Instruction) {
-			b, ok := in.(*ssa.BinOp)
-			if !ok {
+			p, ok := in.(*ssa.Phi)
+			if !ok || !isIntType(p.Type()) {
 				return
 			}
-			switch b.Op {
-			case token.QUO:
-				if k, isC := an.ConstInt(b.Y); isC && k == 2 {
-					if p, isPhi := b.X.(*ssa.Phi); isPhi {
-						phiR = p
-					}
-				}
-			case token.GEQ, token.LSS, token.GTR, token.LEQ:
-				for _, side := range []ssa.Value{b.X, b.Y} {
-					other := b.Y
-					if side == b.Y {
-						other = b.X
-					}
-					if p, isPhi := side.(*ssa.Phi); isPhi && isIntType(p.Type()) && strings.Contains(an.Path(other), "/c:2)") {
-						phiM = p
+			var incs []ssa.Instruction
+			for _, r := range *p.Referrers() {
+				if b, ok := r.(*ssa.BinOp); ok && b.Op == token.ADD && b.X == ssa.Value(p) {
+					if k, isC := an.ConstInt(b.Y); isC && k == 1 && feeds(b, p) {
+						incs = append(incs, b)
 					}
 				}
 			}
+			if len(incs) > 0 {
+				ctrs = append(ctrs, ctr{p, incs})
+			}
 		})
+		after := func(a, b ctr) bool { // every increment of b comes after an increment of a
+			for _, ib := range b.incs {
+				ok := false
+				for _, ia := range a.incs {
+					if an.Dominates(ia, ib) {
+						ok = true
+					}
+				}
+				if !ok {
+					return false
+				}
+			}
+			return true
+		}
+		if len(ctrs) == 2 {
+			switch {
+			case after(ctrs[0], ctrs[1]):
+				phiR, phiM = ctrs[0].phi, ctrs[1].phi
+			case after(ctrs[1], ctrs[0]):
+				phiR, phiM = ctrs[1].phi, ctrs[0].phi
+			}
+		}
 		cname := map[*ssa.Phi]string{phiR: "responses", phiM: "matching"}
 		if phiR == nil || phiM == nil {
 			c.Anchor("R1", "counters responses/matching in resolveNodeConflict")
@@ -491,4 +513,26 @@ func short(s string) string {
 		return s[:90] + "…"
 	}
 	return s
+}
+
+// feeds reports whether value v flows back into phi p (directly or through other phis).
+func feeds(v ssa.Value, p *ssa.Phi) bool {
+	seen := map[*ssa.Phi]bool{}
+	var walk func(q *ssa.Phi) bool
+	walk = func(q *ssa.Phi) bool {
+		if seen[q] {
+			return false
+		}
+		seen[q] = true
+		for _, e := range q.Edges {
+			if e == v {
+				return true
+			}
+			if eq, ok := e.(*ssa.Phi); ok && walk(eq) {
+				return true
+			}
+		}
+		return false
+	}
+	return walk(p)
 }
